@@ -6,7 +6,7 @@ WT=/tmp/sm_$(basename $SD)
 git -C /repo worktree remove --force $WT >/dev/null 2>&1
 git -C /repo worktree add --detach $WT HEAD >/dev/null 2>&1 || exit 2
 if ! git -C $WT apply $SD/patch.diff 2>/dev/null; then echo "$(basename $SD) PATCH-DOES-NOT-APPLY"; git -C /repo worktree remove --force $WT; exit 3; fi
-export YV_REPO=$WT YV_WORK=/tmp/sm_work_$(basename $SD) YV_EVIDENCE=/tmp/sm_work_$(basename $SD)/evidence YV_REPLAYS=/tmp/sm_work_$(basename $SD)/replays YV_JOBS=${YV_JOBS:-8}
+export YV_REPO=$WT YV_WORK=/tmp/sm_work_$(basename $SD) YV_EVIDENCE=/tmp/sm_work_$(basename $SD)/evidence YV_REPLAYS=/tmp/sm_work_$(basename $SD)/replays YV_JOBS=${YV_JOBS:-8} YV_CACHE_DIR=/verif/.work/cache
 for c in "$@"; do
   out=$(cd /verif && python3 bin/check $c --tier quick 2>&1); rc=$?
   first=$(echo "$out" | grep -m1 "FAILED-OBLIGATION" | sed 's/FAILED-OBLIGATION property=[^ ]* //' | cut -c1-220)
